@@ -11,6 +11,7 @@ differ only in the scratch-slot optimisation.
 from __future__ import annotations
 
 import importlib
+import json
 import itertools
 from collections import Counter
 
@@ -260,6 +261,36 @@ def run(tier: str) -> int:
                     break
         if len(samples) < 2:
             samples.append({"recipe": cases[0].sexp[:500], "settings": [[c.version, c.opts] for c in cases][:8]})
+    # ---- families built through the PyTeal API (recursion, ABI values as frame locals, by-reference locals, explicit returns):
+    # every (version, scratch_slots, frame_pointers) setting of one family instance must behave alike
+    from families import FAMILIES, compile_family
+    d.ask("ctx cfam (ctx app 10 (args) (group (txn (Sender (b 00)))) 0 (global) 0 (gstate))")
+    fam_n = 0
+    for name, (fn, ns) in FAMILIES.items():
+        for n in (ns if tier == "thorough" else ns[-1:]):
+            outs = {}
+            for v in ([6, 8, 10] if tier == "quick" else range(4, 11)):
+                for o in ([{}, {"scratch_slots": False}, {"scratch_slots": True}] + ([{"frame_pointers": False}, {"frame_pointers": True, "scratch_slots": False}] if v >= 8 else [])):
+                    res = compile_family(name, n, v, **o)
+                    if res[0] != "ok":
+                        stats[f"family:{res[0]}"] += 1
+                        continue
+                    fam_n += 1
+                    d.ask(f"teal tfam {res[1].encode().hex()}")
+                    out = d.ask("exec tfam cfam 200000")
+                    if out.startswith("done"):
+                        outs[(v, json.dumps(o, sort_keys=True))] = (out.split("slots")[0].strip(), res[1])
+                    elif out.startswith("fail") and "unmodelled" not in out:
+                        outs[(v, json.dumps(o, sort_keys=True))] = ("fail", res[1])
+            kinds = {}
+            for k, (o_, t_) in outs.items():
+                kinds.setdefault(o_, []).append(k)
+            if len(kinds) > 1:
+                (oa, ka), (ob, kb) = sorted(kinds.items(), key=lambda kv: -len(kv[1]))[:2]
+                rep.violation(f"family {name}({n}): settings {ka[0]} give `{oa[:80]}`, settings {kb[0]} give `{ob[:80]}`",
+                              {"family": name, "n": n, "a": {"setting": list(ka[0]), "outcome": oa, "teal": outs[ka[0]][1]},
+                               "b": {"setting": list(kb[0]), "outcome": ob, "teal": outs[kb[0]][1]}})
+    stats["family programs executed"] = fam_n
     d.close()
     opt_cov = {}
     try:
